@@ -15,7 +15,7 @@ import shutil
 
 from checks import frontend_common as fc
 from vf import build, diag, express, tlc
-from vf.common import mkdir
+from vf.common import InfraError, mkdir
 
 WARN_BODY = """ENTITY wa; x : INTEGER; END_ENTITY;
 ENTITY wb SUBTYPE OF (wa); y : REAL; END_ENTITY;
@@ -80,6 +80,17 @@ def run(ctx):
                                                 "emptyarg": any(a.strip() == "" for a in x["args"]),
                                                 "haslexeme": bool(m["lexeme"]) and x["code"] == m["code"] and lexeme_ok(m, x),
                                                 "msg": x["msg"][:120]} for x in ds]}))
+    # self-check against vacuity: a mutant class that names a diagnostic family must provoke that family at least once,
+    # or its 'quotes the offending lexeme' clause was never exercised
+    printed = {}
+    for tag, path, expect, m, c in ins:
+        if m.get("code"):
+            hit = any(x["code"] == m["code"] for tool in tools for x in res[(tag, tool)][1])
+            printed.setdefault(m["class"].split("_long")[0], []).append(hit)
+    vac = sorted(k for k, v in printed.items() if not any(v) and k != "lex_nonascii")
+    if vac:
+        raise InfraError("mutant classes that never provoke their diagnostic family (vacuous): %s" % vac)
+    cov["family_printed_by_class"] = {k: "%d/%d" % (sum(v), len(v)) for k, v in sorted(printed.items())}
     # ---- warning options: two-run formula
     wcases = cases[:2] if ctx.quick else cases[:12]
     nopt = 0
